@@ -9,6 +9,8 @@ ITEM = {
     "expectThenUnwrap": (["let v = opt.expect(\"value present\").checked_add(1).unwrap();"], 0, ["let _ = v;"]),
     # the source `d` is used again afterwards, so the clone is not "unnecessary"
     "clonePlain": (["let c = d.clone();"], 0, ["let _ = c.len() + d.len();"]),
+    # the source is rebound by a later `let` whose initializer reads the old binding: still a use after the clone
+    "cloneLetShadowed": (["let c = d.clone();"], 0, ["let d = d.trim().len();", "let _ = c.len() + d;"]),
     "cloneChain": (["let c = d.clone().clone();"], 0, ["let _ = c.len() + d.len();"]),
     # the source `d` is never used after the clone
     "cloneLetUnused": (["let c = d.clone();"], 0, ["let _ = c.len();"]),
